@@ -122,6 +122,16 @@ func (w *Walker) Walk(
 			ready:  readyCh,
 			cancel: cancelCh,
 		}
+	}
+
+	// Only start routines once every selected node is registered: a node that completes
+	// while the info map is still being populated would otherwise send its ready/cancel
+	// message to a dependant that is not in the map yet (the message is lost and the
+	// walk never finishes) and would read the map while it is being written.
+	for _, node := range w.graph.nodes {
+		if !node.GetIsSelected() {
+			continue
+		}
 
 		w.wait.Add(1)
 		// start all routines
